@@ -1,0 +1,64 @@
+//go:build verif
+// +build verif
+
+package bfe_http
+
+// Hooks for the out-of-tree verification harness of property C27 (build tag verif).  Add-only.
+
+import (
+	"io"
+	"sync"
+	"time"
+)
+
+// VerifC27DrainSorterCache empties the process-wide headerSorterCache, so that one harness case does
+// not depend on which sorters earlier cases left in it.
+func VerifC27DrainSorterCache() {
+	for {
+		select {
+		case <-headerSorterCache:
+		default:
+			return
+		}
+	}
+}
+
+type verifC27GatedWriter struct {
+	w       io.Writer
+	gate    chan struct{}
+	entered chan struct{}
+	once    sync.Once
+}
+
+func (g *verifC27GatedWriter) Write(p []byte) (int, error) {
+	g.once.Do(func() { close(g.entered) })
+	<-g.gate
+	return g.w.Write(p)
+}
+
+// VerifC27WriteRequestsInterleaved runs a.Write(wa) in a goroutine whose first write to wa stalls,
+// then b.Write(wb) completely, then releases a (the Request.Write analogue of VerifC27RunPair).
+func VerifC27WriteRequestsInterleaved(a *Request, wa io.Writer, b *Request, wb io.Writer) (hang bool) {
+	ga := &verifC27GatedWriter{w: wa, gate: make(chan struct{}), entered: make(chan struct{})}
+	done := make(chan struct{})
+	go func() {
+		defer close(done)
+		defer func() { recover() }()
+		a.Write(ga)
+	}()
+	select {
+	case <-ga.entered:
+	case <-done:
+	case <-time.After(5 * time.Second):
+		close(ga.gate)
+		return true
+	}
+	b.Write(wb)
+	close(ga.gate)
+	select {
+	case <-done:
+	case <-time.After(5 * time.Second):
+		return true
+	}
+	return false
+}
